@@ -207,3 +207,14 @@ Theorem C15_pipeline_machine :
     (exists cfg', step cfg cfg').
 Proof. exact pipeline_machine. Qed.
 Print Assumptions C15_pipeline_machine.
+
+(* ... for the set of buffers the (modelled, L1-checked) duplication rule of the pass selects *)
+Theorem C15_pipeline_equiv_dups :
+  forall p ds n m ss x,
+  dups p = Some ds -> safe_pipe p ds = true ->
+  (1 <= nstages p)%nat -> (nstages p - 1 <= n)%nat ->
+  Forall2 schedule_of (pipe_events p ds (Z.of_nat n) 1) ss ->
+  ~ duprel ds x ->
+  exec (concat ss) m x = exec (concat (seq_events p 0 (Z.of_nat n) 1)) m x.
+Proof. exact pipeline_equiv_dups. Qed.
+Print Assumptions C15_pipeline_equiv_dups.
